@@ -371,6 +371,35 @@ def worker(shard):
                 acc.violation('wide-text/not-bytes-or-no-round-trip',
                               f'MetaMessage({type_!r}, {name}={wide!a}).bytes() '
                               f'= {_short(b)}', case)
+        # the codec under another charset in force (meta_charset block):
+        # payload is the text in that charset and decodes back
+        from mido.midifiles.meta import meta_charset
+        for cs in ('utf-8', 'utf-16', 'shift_jis', 'cp1252'):
+            for text in ('a', 'caf\xe9', '\u65e5\u672c', '\u20ac' * 100):
+                try:
+                    want = list(text.encode(cs))
+                except UnicodeError:
+                    continue
+                acc.evals += 1
+                acc.nontrivial += 1
+                case = {'kind': 'charset', 'type': type_, 'charset': cs,
+                        'text': ascii(text)}
+                try:
+                    with meta_charset(cs):
+                        m = mido.MetaMessage(type_, **{name: text})
+                        b = list(m.bytes())
+                        back = mido.MetaMessage.from_bytes(b)
+                    exp = [0xFF, rm.TABLE[type_][0]] + rm.vlq(len(want)) + want
+                    if b != exp or vars(back) != vars(m):
+                        acc.violation(f'charset-in-force/{cs}',
+                                      f'under meta_charset({cs!r}): {type_} '
+                                      f'{text!a} encoded as {_short(b)}, '
+                                      f'expected {_short(exp)}; decoded back '
+                                      f'{back!r}', case)
+                except Exception as e:
+                    acc.violation(f'charset-in-force/{cs}/{type(e).__name__}',
+                                  f'under meta_charset({cs!r}): {type_} '
+                                  f'{text!a} raised {e!r}', case)
         acc.sample({'type': type_, 'text_lengths': list(lengths)}, cap=1)
     elif kind == 'data':
         lengths = shard[1]
